@@ -10,10 +10,25 @@
     and has at least one unaccepted sender.  [signer_ok h]: the holder (a module address with no
     key) signs nothing.  [rget k (s_recs s)] is the record stored under key [k = (to, suffix)];
     [rec_total (s_recs s) d] the total of all records in denom [d];
-    [slack h s d] = holder balance - record total. *)
+    [slack h s d] = holder balance - record total.
+
+    The theorems of the second half start from [good s0] = [wf s0], the suffix index of [s0]
+    reaches every multi-sender record from each of its senders ([idx_sound]) and no record holds
+    a negative amount ([recs_nn]); [C07_genesis_good] shows that every state InitGenesis builds
+    is such a state.  A transfer operation [o] (MsgSend, MsgMultiSend, many-inputs
+    InputOutputCoins) hands the pairs [transfers_of o] = (from, to, coins) to the send
+    restriction and debits [inputs_of o]; [is_quarantined h s from to] says that the pair is
+    quarantined in state [s] (to opted in, from is neither to, the holder nor auto-accepted);
+    [dest h s t] is the holder for a quarantined pair and its receiver otherwise;
+    [credited h s ts a d] the sum of the pairs whose [dest] is [a]; [recorded h s ts k d] the sum
+    of the quarantined pairs whose record key [(to, [from])] is [k]; [old k recs d] the amount
+    the record under [k] holds (0 when there is none).  The model includes the marker send
+    restriction for restricted coins ([s_xfer]): a refused transfer is a rejected operation. *)
 From Coq Require Import ZArith PArith List Bool.
 Import ListNotations.
-From PV Require Import Quarantine.Quarantine Proofs.QuarantineProofs Proofs.QuarantineConservation.
+From PV Require Import Quarantine.Quarantine Proofs.QuarantineProofs Proofs.QuarantineConservation
+  Proofs.QuarantineIndex Proofs.QuarantineSteps Proofs.QuarantineTransfers Proofs.QuarantineLiveness
+  Proofs.QuarantineHistories.
 Open Scope Z_scope.
 
 (** The holder's balance covers the total of all records after every history, per denom; what it
@@ -103,6 +118,124 @@ Theorem C07_conservation : forall h U, NoDup U -> In h U -> forall ops s0 d,
 Proof. exact conservation. Qed.
 Print Assumptions C07_conservation.
 
+(** ** Deepened statements *)
+
+(** Every state the model's InitGenesis builds from records with non-negative coins is [good]. *)
+Theorem C07_genesis_good : forall g s,
+  init_genesis g = Some s ->
+  Forall (fun e : addr * list addr * coins * bool => forall d, 0 <= amt (snd (fst e)) d) (g_funds g) ->
+  good s /\ s_xfer s = g_xfer g.
+Proof. exact genesis_good. Qed.
+Print Assumptions C07_genesis_good.
+
+(** The suffix index is sound after every history: the index entry (to, f) of every sender [f] of
+    every multi-sender record holds the record's suffix, and therefore GetQuarantineRecords
+    (to, froms) returns every record to [to] that has a sender among [froms] — which is what
+    accept and decline iterate over.  (No [signer_ok] needed.) *)
+Theorem C07_suffix_index_sound : forall h s0 ops,
+  good s0 ->
+  let s := run h s0 ops in
+  good s /\
+  (forall k r f, aget rkey_eqb k (s_recs s) = Some r -> is_multi (all_froms r) = true -> In f (all_froms r) ->
+     In (snd k) (idx_get (s_idx s) (fst k) f)) /\
+  (forall k r f froms, aget rkey_eqb k (s_recs s) = Some r -> In f (all_froms r) -> In f froms ->
+     In (k, r) (get_records s (fst k) froms)).
+Proof. exact suffix_index_sound_hist. Qed.
+Print Assumptions C07_suffix_index_sound.
+
+(** [C07_not_credited_until_accept] for every transfer kind, pair by pair.  After any history,
+    an accepted MsgSend / MsgMultiSend / many-inputs InputOutputCoins: every account's balance
+    changes by exactly what it is debited as an input and what is credited to it, where the
+    amount of each (input, output) pair is credited to the holder when the pair is quarantined
+    and to its receiver otherwise; the record under (to, [from]) gains exactly the quarantined
+    pairs from [from] to [to] (repeated receivers add up; a top-up adds to what was there), no
+    other record changes; a receiver all of whose pairs are quarantined (and that is not an
+    input) keeps its balance; the holder gains exactly the quarantined amounts plus what is
+    sent to it directly; opt-ins and auto-responses are unchanged. *)
+Theorem C07_transfer_pairs : forall h s0 ops o s' res,
+  good s0 -> is_transfer o ->
+  let s := run h s0 ops in
+  step h s o = (s', Some res) ->
+  let ts := transfers_of o in
+  (forall a d, s_bal s' a d = s_bal s a d - debited (inputs_of o) a d + credited h s ts a d) /\
+  (forall k d, old k (s_recs s') d = old k (s_recs s) d + recorded h s ts k d) /\
+  (forall k, (forall t, In t ts -> is_quarantined h s (x_from t) (x_to t) = false \/ k <> rec_key t) ->
+             aget rkey_eqb k (s_recs s') = aget rkey_eqb k (s_recs s)) /\
+  (forall to, to <> h -> ~ In to (map fst (inputs_of o)) ->
+     (forall t, In t ts -> x_to t = to -> is_quarantined h s (x_from t) to = true) ->
+     forall d, s_bal s' to d = s_bal s to d) /\
+  (signer_ok h o -> forall d, s_bal s' h d = s_bal s h d + credited h s ts h d) /\
+  s_optin s' = s_optin s /\ s_auto s' = s_auto s.
+Proof. exact transfer_pairs_hist. Qed.
+Print Assumptions C07_transfer_pairs.
+
+(** Only an accept lowers the holder's balance: after any history, no operation of any other
+    kind (accepted or rejected; sends, multi-sends, declines, opt-in/out, auto-response updates)
+    lowers it in any denom, and neither does any continuation without an accept. *)
+Theorem C07_only_accept_lowers_holder : forall h s0 ops,
+  good s0 ->
+  let s := run h s0 ops in
+  (forall o s' res, signer_ok h o -> not_accept o -> step h s o = (s', res) ->
+     forall d, s_bal s h d <= s_bal s' h d) /\
+  (forall ops2, Forall (signer_ok h) ops2 -> Forall not_accept ops2 ->
+     forall d, s_bal s h d <= s_bal (run h s ops2) h d).
+Proof. exact only_accept_lowers_holder_hist. Qed.
+Print Assumptions C07_only_accept_lowers_holder.
+
+(** Payout liveness: after any history, an Accept(to, froms) that names every currently
+    unaccepted sender of a record to [to] is accepted, removes that record in this very step,
+    releases at least its coins, and the released amount reaches [to] from the holder.  (The
+    marker restriction cannot block the payout: the holder is a required-attribute bypass
+    address; the holder's balance suffices by [C07_holder_covers_records].) *)
+Theorem C07_accept_pays_out : forall h s0 ops to froms perm k r,
+  good s0 -> covers h s0 -> Forall (signer_ok h) ops -> to <> h ->
+  let s := run h s0 ops in
+  aget rkey_eqb k (s_recs s) = Some r -> fst k = to -> incl (q_unacc r) froms ->
+  exists s' rel,
+    step h s (OAccept to froms perm) = (s', Some rel) /\
+    aget rkey_eqb k (s_recs s') = None /\
+    (forall d, amt (q_coins r) d <= amt rel d) /\
+    (forall d, s_bal s' to d = s_bal s to d + amt rel d) /\
+    (forall d, s_bal s' h d = s_bal s h d - amt rel d).
+Proof. exact accept_pays_out_hist. Qed.
+Print Assumptions C07_accept_pays_out.
+
+(** Decline after accept: after any history, a Decline(to, froms) is accepted and every record
+    to [to] that has a sender [f] among [froms] — accepted earlier or not — is kept with its
+    coins, is flagged declined, and has [f] among its UNACCEPTED senders again; no balance
+    changes.  From then on the record stays, with [f] unaccepted and without losing a coin,
+    through every continuation in which [to] sends no Accept naming [f]: it cannot be paid out
+    until [f] is accepted anew (by [C07_paid_once_in_full] a record is only removed by an
+    accept naming all its unaccepted senders). *)
+Theorem C07_decline_revokes_acceptance : forall h s0 ops to froms perm k r f,
+  good s0 ->
+  let s := run h s0 ops in
+  aget rkey_eqb k (s_recs s) = Some r -> fst k = to -> In f (all_froms r) -> In f froms ->
+  exists s' r',
+    step h s (ODecline to froms perm) = (s', Some []) /\
+    aget rkey_eqb k (s_recs s') = Some r' /\ In f (q_unacc r') /\ incl (q_unacc r) (q_unacc r') /\
+    q_coins r' = q_coins r /\ q_declined r' = true /\
+    (forall a d, s_bal s' a d = s_bal s a d) /\
+    (forall ops2, Forall (fun o => ~ accepts_sender to f o) ops2 ->
+       exists r2, aget rkey_eqb k (s_recs (run h s' ops2)) = Some r2 /\ In f (q_unacc r2) /\
+                  forall d, amt (q_coins r) d <= amt (q_coins r2) d).
+Proof. exact decline_revokes_hist. Qed.
+Print Assumptions C07_decline_revokes_acceptance.
+
+(** Released only on acceptance, over histories: a record with an unaccepted sender [f] is still
+    there, with [f] unaccepted and at least its coins, after every continuation in which the
+    receiver sends no Accept naming [f] (whatever else happens: sends, top-ups, accepts of other
+    senders, declines, opt-outs, auto-response changes — including setting [f] to auto-accept). *)
+Theorem C07_unaccepted_sender_blocks_payout : forall h s0 ops k r f ops2,
+  good s0 ->
+  let s := run h s0 ops in
+  aget rkey_eqb k (s_recs s) = Some r -> In f (q_unacc r) ->
+  Forall (fun o => ~ accepts_sender (fst k) f o) ops2 ->
+  exists r2, aget rkey_eqb k (s_recs (run h s ops2)) = Some r2 /\ In f (q_unacc r2) /\
+             forall d, amt (q_coins r) d <= amt (q_coins r2) d.
+Proof. exact unaccepted_blocks_payout_hist. Qed.
+Print Assumptions C07_unaccepted_sender_blocks_payout.
+
 (** Non-vacuity: a well-formed genesis with a two-sender record; a quarantined send, an accept
     of one sender (pays the single-sender record only), then of the other (pays the rest). *)
 Definition ex_s0 : state :=
@@ -110,13 +243,15 @@ Definition ex_s0 : state :=
      s_recs := [((3%positive, [4%positive; 5%positive]),
                  {| q_unacc := [4%positive; 5%positive]; q_acc := []; q_coins := [(1%positive, 10)]; q_declined := false |})];
      s_idx := [((3%positive, 4%positive), [[4%positive; 5%positive]]); ((3%positive, 5%positive), [[4%positive; 5%positive]])];
-     s_bal := bal_of_list [(1%positive, 1%positive, 10); (4%positive, 1%positive, 100)] |}.
+     s_bal := bal_of_list [(1%positive, 1%positive, 10); (4%positive, 1%positive, 100)];
+     s_xfer := [] |}.
 
 Example C07_witness :
   wf ex_s0 /\ covers 1%positive ex_s0 /\
   init_genesis {| g_optin := [3%positive]; g_auto := [];
                   g_funds := [(3%positive, [4%positive; 5%positive], [(1%positive, 10)], false)];
-                  g_bal := [(1%positive, 1%positive, 10); (4%positive, 1%positive, 100)] |} <> None /\
+                  g_bal := [(1%positive, 1%positive, 10); (4%positive, 1%positive, 100)];
+                  g_xfer := [] |} <> None /\
   let ops1 := [OSend 4%positive 3%positive [(1%positive, 7)]; OAccept 3%positive [4%positive] false] in
   let s1 := run 1%positive ex_s0 ops1 in
   let s2 := run 1%positive s1 [OAccept 3%positive [5%positive; 5%positive] true] in
@@ -134,4 +269,46 @@ Proof.
   - vm_compute. discriminate.
   - cbn zeta. split; [|vm_compute; repeat split].
     repeat constructor; discriminate.
+Qed.
+
+(** Non-vacuity of the deepened statements: [ex_s0] is [good]; denom 2 is a restricted marker coin
+    on which 4 and 5 (not 6) hold Transfer access.  Accept 4, Decline 5, Decline 4, Accept 5 leaves
+    the two-sender record unpaid (4 is unaccepted again); a multi-send of the restricted coin
+    from 4 to the opted-in 3 (twice) and to 6 is quarantined pair by pair; 6 cannot send it;
+    accepting 4 and 5 together pays everything out, restricted coins included. *)
+Definition ex_s1 : state :=
+  {| s_optin := s_optin ex_s0; s_auto := []; s_recs := s_recs ex_s0; s_idx := s_idx ex_s0;
+     s_bal := bal_of_list [(1%positive, 1%positive, 10); (4%positive, 1%positive, 100); (4%positive, 2%positive, 50);
+                           (6%positive, 2%positive, 5)];
+     s_xfer := [(2%positive, [4%positive; 5%positive])] |}.
+
+Example C07_witness_deepened :
+  good ex_s0 /\ good ex_s1 /\
+  let h := 1%positive in
+  let s1 := run h ex_s1 [OAccept 3%positive [4%positive] false; ODecline 3%positive [5%positive] false;
+                         ODecline 3%positive [4%positive] false; OAccept 3%positive [5%positive] false] in
+  option_map q_unacc (aget rkey_eqb (3%positive, [4%positive; 5%positive]) (s_recs s1)) = Some [4%positive] /\
+  s_bal s1 3%positive 1%positive = 0 /\
+  let m := OMulti 4%positive [(2%positive, 9)] [(3%positive, [(2%positive, 4)]); (6%positive, [(2%positive, 3)]); (3%positive, [(2%positive, 2)])] in
+  let s2 := run h s1 [m] in
+  is_transfer m /\ snd (step h s1 m) = Some [] /\
+  s_bal s2 3%positive 2%positive = 0 /\ s_bal s2 6%positive 2%positive = 8 /\ s_bal s2 h 2%positive = 6 /\
+  old (3%positive, [4%positive]) (s_recs s2) 2%positive = 6 /\
+  snd (step h s2 (OSend 6%positive 4%positive [(2%positive, 1)])) = None /\
+  let s3 := run h s2 [OAccept 3%positive [5%positive; 4%positive] false] in
+  s_recs s3 = [] /\ s_bal s3 3%positive 2%positive = 6 /\ s_bal s3 3%positive 1%positive = 10 /\ s_bal s3 h 2%positive = 0.
+Proof.
+  assert (G : forall b x, good {| s_optin := s_optin ex_s0; s_auto := []; s_recs := s_recs ex_s0; s_idx := s_idx ex_s0;
+                                  s_bal := b; s_xfer := x |}).
+  { intros b x. split; [|split].
+    - split.
+      + constructor; [intros [] | constructor].
+      + constructor; [|constructor]. split; [reflexivity | discriminate].
+    - intros k r Hk Hm f Hf. cbn [s_recs ex_s0 aget fst snd] in Hk.
+      destruct (rkey_eqb k (3%positive, [4%positive; 5%positive])) eqn:Ek; [|discriminate].
+      injection Hk as <-. apply rkey_eqb_eq in Ek. subst k. cbn in Hf. cbn.
+      destruct Hf as [<-|[<-|[]]]; vm_compute; left; reflexivity.
+    - constructor; [|constructor]. intros d. cbn [snd q_coins amt fst]. destruct (Pos.eqb 1 d); cbn; discriminate. }
+  split; [apply G|]. split; [apply G|].
+  vm_compute. repeat split.
 Qed.
